@@ -151,7 +151,7 @@ def verdict_corpus(rep, tier, seed):
             continue
         seen.add(sig)
         src = r["src"]
-        rep.add(Ob(f"compiler.compile_code#returns_a_verdict_promptly_and_cleans_up[{r['kind']}:{__import__('zlib').crc32(str(src).encode()) % 100000}]", VIOLATED, kind="bounded", backend="native",
+        rep.add(Ob(f"compiler.compile_code#returns_a_verdict_promptly_and_cleans_up[{r['kind']}:{__import__('zlib').crc32(str(src).encode('utf-8', 'surrogatepass')) % 100000}]", VIOLATED, kind="bounded", backend="native",
                    bound=bound, target="compiler.compile_code", replayed=True, witness={"source": src if not isinstance(src, str) or len(src) < 3000 else src[:200] + f"...({len(src)} chars)", "options": r["options"],
                             **({"compiled_before_in_the_same_process": CONSTEXPR[:CONSTEXPR.index(src)]} if r["kind"] == "constexpr" and src in CONSTEXPR else {})},
                    detail={"observed": r["what"]}))
